@@ -180,10 +180,11 @@ def snap_path(p):
 _junk = []
 
 
-def jitter(rnd):
-    """Shift allocation addresses a little between constructions (id()-based hashes, set iteration order)."""
+def jitter(rnd, keep=None):
+    """Shift allocation addresses between constructions (id()-based hashes decide set iteration order): some
+    small objects, and optionally an earlier construction, are kept alive for a while."""
     n = rnd.randrange(0, 7)
-    _junk.append([object() for _ in range(n)])
+    _junk.append(([object() for _ in range(n)], keep if rnd.random() < 0.5 else None))
     if len(_junk) > 64:
         del _junk[: rnd.randrange(1, 40)]
 
@@ -200,7 +201,7 @@ class Env:
         self.rnd = rnd or random.Random(0)
         self.objs = {}
         self.cache = {}
-        self.keep = []
+        self.built = {}
 
     def order(self, seq):
         seq = list(seq)
@@ -300,8 +301,10 @@ def build_matcher(e, env):
     if env.shared:
         key = jdump(e)
         if key in env.cache:
+            env.built[id(e)] = env.cache[key]
             return env.cache[key]
     m = _build_matcher(e, env)
+    env.built[id(e)] = m  # AST node -> the real object built for it (used to localise a failing sub-expression)
     if env.shared:
         env.cache[key] = m
     return m
@@ -653,30 +656,6 @@ def real_verdict(e, v, cx, pool, **envkw):
     val = build_value(v, env)
     m = build_matcher(e, env)
     return verdict(m, val)[0]
-
-
-def localise(failing, pool, rep=None):
-    """failing: list of (e, v, cx). Returns for each the op of the smallest sub-expression on which the real
-    verdict differs from the spec's (decided by TLC on the sub-pairs), or the top op."""
-    sub = []
-    index = []
-    for n, (e, v, cx) in enumerate(failing):
-        for ce, cv in descendants(e, v):
-            try:
-                rv = real_verdict(ce, cv, cx, pool)
-            except tlc.MachineryError:
-                continue
-            sub.append({"e": ce, "v": cv, "r": rv})
-            index.append(n)
-    bad = trace_verdicts(sub, rep, "localise") if sub else {}
-    out = []
-    for n, (e, v, cx) in enumerate(failing):
-        cands = [sub[i - 1]["e"] for i, sv in bad.items() if index[i - 1] == n and sv != "X"]
-        if cands:
-            out.append(min(cands, key=lambda x: len(jdump(x)))["op"])
-        else:
-            out.append(e["op"])
-    return out
 
 
 # ---------------------------------------------------------------------------------------------------------
